@@ -10,9 +10,16 @@ def winnerOf (s : St) (p : Nat) : Option Nat :=
   | some pr => pr.winner
   | none => none
 
-/-- the promise reference denotes something that exists -/
+/-- plain promise `p` was constructed pre-resolved -/
+def bornOf (s : St) (p : Nat) : Bool :=
+  match s.proms[p]? with
+  | some pr => pr.born
+  | none => false
+
+/-- the promise reference denotes something that exists (and that may be put into the container:
+not a promise constructed pre-resolved) -/
 def refOK (s : St) : PRef → Prop
-  | .plain p => p < s.proms.length
+  | .plain p => notBorn s p = true
   | .fixed u e => ∃ th, s.th[u]? = some th ∧ (th.ts = .cRet (.res e) ∨ th.ts = .cDone (.res e))
 
 /-- a result obtained from a container: it is the published result of an existing promise -/
@@ -25,15 +32,15 @@ def ThOK (s : St) (t : Nat) (th : Th) : Prop :=
   | .setWon p v _ => v = t + 1 ∧ winnerOf s p = some t ∧ published s (.plain p) = none
   | .setRet p v e b | .setDone p v e b =>
     v = t + 1 ∧ if b then winnerOf s p = some t ∧ published s (.plain p) = some (v, e)
-                else ∃ w, winnerOf s p = some w ∧ w ≠ t
+                else (∃ w, winnerOf s p = some w ∧ w ≠ t) ∨ bornOf s p = true
   | .awWait p _ => p < s.proms.length
   | .awRet (some p) k v e | .awDone (some p) k v e =>
-    (1 ≤ v ∧ published s (.plain p) = some (v, e)) ∨
+    published s (.plain p) = some (v, e) ∨
     (v = 0 ∧ ((e = .canceled ∧ th.cx = true) ∨ usrPlain k th.ch = some (0, e)))
   | .awRet none k v e | .awDone none k v e =>
     (1 ≤ v ∧ fromRef s v e) ∨
     (v = 0 ∧ ((e = .canceled ∧ th.cx = true) ∨ usrNil k th.ch = some (0, e)))
-  | .cWInv (.setp p) => p.all (· < s.proms.length) = true
+  | .cWInv (.setp p) => p.all (notBorn s) = true
   | .cWInv (.res _) | .cRet _ | .cDone _ | .cHead _ => True
   | .cNil _ c => c < s.bc.next ∧ (s.bc.closed c = false → s.slot = none)
   | .cInner _ r c => c < s.bc.next ∧ (s.bc.closed c = false → s.slot = some r) ∧ refOK s r
@@ -47,7 +54,8 @@ def isWinnerState (p w : Nat) (ts : TS) : Prop :=
   (∃ e, ts = .setWon p (w + 1) e) ∨ (∃ e, ts = .setRet p (w + 1) e true) ∨ (∃ e, ts = .setDone p (w + 1) e true)
 
 def PromOK (s : St) (p : Nat) (pr : Prom) : Prop :=
-  (∀ v e, pr.res = some (v, e) → pr.winner = some (v - 1) ∧ 1 ≤ v) ∧
+  (∀ v e, pr.res = some (v, e) → pr.born = false → pr.winner = some (v - 1) ∧ 1 ≤ v) ∧
+  (pr.born = true → pr.winner = none ∧ ∃ e, pr.res = some (0, e)) ∧
   (∀ w, pr.winner = some w → ∃ th, s.th[w]? = some th ∧ isWinnerState p w th.ts)
 
 structure Inv (s : St) : Prop where
@@ -63,6 +71,8 @@ theorem init_inv : Inv ({} : St) := by
 
 structure Frame (s s' : St) (u : Nat) : Prop where
   plen : s.proms.length ≤ s'.proms.length
+  nb : ∀ (p : Nat), notBorn s p = true → notBorn s' p = true
+  bn : ∀ (p : Nat), bornOf s p = true → bornOf s' p = true
   win : ∀ (p w : Nat), winnerOf s p = some w → winnerOf s' p = some w
   winU : ∀ (p : Nat), winnerOf s' p = some u → winnerOf s p = some u
   pub : ∀ (r : PRef) (x : Nat × Err), published s r = some x → published s' r = some x
@@ -94,7 +104,9 @@ theorem thOK_frame {s s' : St} {u : Nat} (F : Frame s s' u) (th : Th) (h : ThOK 
     | true => simp only [if_true] at h2 ⊢; exact ⟨F.win p u h2.1, F.pub _ _ h2.2⟩
     | false =>
       simp only [Bool.false_eq_true, if_false] at h2 ⊢
-      obtain ⟨w, h3, h4⟩ := h2; exact ⟨w, F.win p w h3, h4⟩
+      rcases h2 with ⟨w, h3, h4⟩ | h3
+      · exact Or.inl ⟨w, F.win p w h3, h4⟩
+      · exact Or.inr (F.bn p h3)
   · rename_i p v e b hts
     simp only [hts] at h
     refine ⟨h.1, ?_⟩
@@ -103,19 +115,21 @@ theorem thOK_frame {s s' : St} {u : Nat} (F : Frame s s' u) (th : Th) (h : ThOK 
     | true => simp only [if_true] at h2 ⊢; exact ⟨F.win p u h2.1, F.pub _ _ h2.2⟩
     | false =>
       simp only [Bool.false_eq_true, if_false] at h2 ⊢
-      obtain ⟨w, h3, h4⟩ := h2; exact ⟨w, F.win p w h3, h4⟩
+      rcases h2 with ⟨w, h3, h4⟩ | h3
+      · exact Or.inl ⟨w, F.win p w h3, h4⟩
+      · exact Or.inr (F.bn p h3)
   · rename_i p k hts
     simp only [hts] at h
     exact Nat.lt_of_lt_of_le h F.plen
   · rename_i p k v e hts
     simp only [hts] at h
-    rcases h with ⟨h1, h2⟩ | h
-    · exact Or.inl ⟨h1, F.pub _ _ h2⟩
+    rcases h with h2 | h
+    · exact Or.inl (F.pub _ _ h2)
     · exact Or.inr h
   · rename_i p k v e hts
     simp only [hts] at h
-    rcases h with ⟨h1, h2⟩ | h
-    · exact Or.inl ⟨h1, F.pub _ _ h2⟩
+    rcases h with h2 | h
+    · exact Or.inl (F.pub _ _ h2)
     · exact Or.inr h
   · rename_i k v e hts
     simp only [hts] at h
@@ -131,7 +145,7 @@ theorem thOK_frame {s s' : St} {u : Nat} (F : Frame s s' u) (th : Th) (h : ThOK 
     simp only [hts] at h
     cases p with
     | none => simp
-    | some p => simp at h ⊢; exact Nat.lt_of_lt_of_le h F.plen
+    | some p => simp at h ⊢; exact F.nb p h
   · trivial
   · trivial
   · trivial
@@ -171,10 +185,12 @@ def Stable (a b : TS) : Prop :=
 
 theorem refOK_set (s : St) (t : Nat) (th th' : Th) (ht : s.th[t]? = some th)
     (hst : Stable th.ts th'.ts) (proms : List Prom) (slot : Option PRef) (bc : Bcast)
-    (hpl : s.proms.length ≤ proms.length) (r : PRef) (h : refOK s r) :
+    (hnb : ∀ p, notBorn s p = true →
+      notBorn { proms := proms, slot := slot, bc := bc, th := s.th.set t th' } p = true)
+    (r : PRef) (h : refOK s r) :
     refOK { proms := proms, slot := slot, bc := bc, th := s.th.set t th' } r := by
   cases r with
-  | plain p => exact Nat.lt_of_lt_of_le h hpl
+  | plain p => exact hnb p h
   | fixed u e =>
     obtain ⟨x, hx, hx2⟩ := h
     by_cases hut : u = t
@@ -190,6 +206,8 @@ theorem published_th (s : St) (th : List Th) (r : PRef) :
 theorem frame_local (s : St) (t : Nat) (th th' : Th) (ht : s.th[t]? = some th)
     (hst : Stable th.ts th'.ts) (u : Nat) : Frame s { s with th := s.th.set t th' } u where
   plen := Nat.le_refl _
+  nb := fun _ h => h
+  bn := fun _ h => h
   win := fun _ _ h => h
   winU := fun _ h => h
   pub := fun r x h => by rw [published_th]; exact h
@@ -197,15 +215,15 @@ theorem frame_local (s : St) (t : Nat) (th th' : Th) (ht : s.th[t]? = some th)
   bnext := Nat.le_refl _
   bclosed := fun _ h => h
   bopen := fun _ _ h => ⟨h, rfl⟩
-  ref := fun r h => refOK_set s t th th' ht hst s.proms s.slot s.bc (Nat.le_refl _) r h
+  ref := fun r h => refOK_set s t th th' ht hst s.proms s.slot s.bc (fun _ h => h) r h
 
 theorem promOK_set (s : St) (t : Nat) (th th' : Th) (ht : s.th[t]? = some th)
     (hst : Stable th.ts th'.ts) (proms : List Prom) (slot : Option PRef) (bc : Bcast)
     (p : Nat) (pr : Prom) (h : PromOK s p pr) :
     PromOK { proms := proms, slot := slot, bc := bc, th := s.th.set t th' } p pr := by
-  refine ⟨h.1, ?_⟩
+  refine ⟨h.1, h.2.1, ?_⟩
   intro w hw
-  obtain ⟨x, hx, hx2⟩ := h.2 w hw
+  obtain ⟨x, hx, hx2⟩ := h.2.2 w hw
   by_cases hwt : w = t
   · subst hwt; rw [ht] at hx; cases hx
     exact ⟨th', by simp [lt_of_getElem? ht], hst.2 p w hx2⟩
@@ -222,7 +240,7 @@ theorem inv_local (s : St) (t : Nat) (th th' : Th) (hi : Inv s) (ht : s.th[t]? =
   · intro p pr hp
     exact promOK_set s t th th' ht hst s.proms s.slot s.bc p pr (hi.pr p pr hp)
   · intro r hr
-    exact refOK_set s t th th' ht hst s.proms s.slot s.bc (Nat.le_refl _) r (hi.slot r hr)
+    exact refOK_set s t th th' ht hst s.proms s.slot s.bc (fun _ h => h) r (hi.slot r hr)
 
 /-- stability is automatic when the old state is neither a finished container `SetResult` nor a
 winning `SetResult` -/
@@ -253,15 +271,19 @@ theorem usrNil_zero (k : AK) (f : Option Fire) (v : Nat) (e : Err) (h : usrNil k
 @[simp] theorem usrPlain_none (k : AK) : usrPlain k none = none := by cases k <;> rfl
 @[simp] theorem usrNil_none (k : AK) : usrNil k none = none := by cases k <;> rfl
 
-/-- a published result has a positive value (values are call ids + 1) -/
-theorem published_pos (s : St) (hi : Inv s) (r : PRef) (v : Nat) (e : Err) (h : published s r = some (v, e)) :
-    1 ≤ v := by
+/-- the published result of a promise that was not constructed pre-resolved has a positive value
+(values are call ids + 1) -/
+theorem published_pos (s : St) (hi : Inv s) (r : PRef) (v : Nat) (e : Err) (hr : refOK s r)
+    (h : published s r = some (v, e)) : 1 ≤ v := by
   cases r with
   | plain p =>
     simp only [published] at h
+    simp only [refOK, notBorn] at hr
     cases hp : s.proms[p]? with
     | none => simp [hp] at h
-    | some pr => simp [hp] at h; exact ((hi.pr p pr hp).1 v e h).2
+    | some pr =>
+      simp [hp] at h hr
+      exact ((hi.pr p pr hp).1 v e h hr).2
   | fixed u e' => simp [published] at h; omega
 
 /-- environment actions on call `t` (context cancelled, own channel fired for the first time) -/
@@ -318,6 +340,8 @@ theorem stable_refl (a : TS) : Stable a a := ⟨fun _ h => h, fun _ _ h => h⟩
 /-- appending a new call -/
 theorem frame_append (s : St) (nt : Th) (u : Nat) : Frame s { s with th := s.th ++ [nt] } u where
   plen := Nat.le_refl _
+  nb := fun _ h => h
+  bn := fun _ h => h
   win := fun _ _ h => h
   winU := fun _ h => h
   pub := fun r x h => by rw [published_th]; exact h
@@ -341,8 +365,8 @@ theorem inv_append (s : St) (nt : Th) (hi : Inv s) (hok : ThOK s s.th.length nt)
     · exact thOK_frame (frame_append s nt u) x (hi.th u x hx)
     · exact thOK_frame (frame_append s x s.th.length) x hok
   · intro p pr hp
-    obtain ⟨h1, h2⟩ := hi.pr p pr hp
-    refine ⟨h1, ?_⟩
+    obtain ⟨h1, h1b, h2⟩ := hi.pr p pr hp
+    refine ⟨h1, h1b, ?_⟩
     intro w hw
     obtain ⟨x, hx, hx2⟩ := h2 w hw
     exact ⟨x, getElem?_snoc_left _ _ _ _ hx, hx2⟩
